@@ -157,23 +157,71 @@ theorem upd_ne_running {pc : Nat → PC} {i x : Nat} {v : PC} (hv : v ≠ .runni
   · subst e; simp at h; exact absurd h hv
   · rw [upd_other _ _ _ _ e] at h; exact ⟨h, e⟩
 
+theorem running_upd (pc : Nat → PC) (i x : Nat) (v : PC) (hv : v ≠ .running) (ho : pc i ≠ .running) :
+    (upd pc i v x = .running → pc x = .running) ∧ (pc x = .running → upd pc i v x = .running) := by
+  refine ⟨fun h => (upd_ne_running hv h).1, fun h => ?_⟩
+  by_cases e : x = i
+  · subst e; exact absurd h ho
+  · rw [upd_other _ _ _ _ e]; exact h
+
 /-- a lifted protocol step never makes a member `running`, and only `report x` ends the `running` phase of `x` -/
 theorem step_liftable_running {t : Topo} {p p' : St} {a : Act} (hl : liftable a = true) (h : step t p a = some p') (x : Nat) :
     (p'.pc x = .running → p.pc x = .running) ∧ (p.pc x = .running → p'.pc x = .running ∨ a = .report x) := by
-  cases a <;> simp [liftable] at hl <;> simp only [step] at h <;> split at h <;>
-    first
-    | (simp at h; done)
-    | (rename_i hg; injection h with h; subst h
-       first
-       | exact ⟨id, Or.inl⟩
-       | (refine ⟨fun hh => (upd_ne_running (by simp) hh).1, fun hh => ?_⟩
-          rename_i i
-          by_cases e : x = i
-          · subst e
-            first
-            | exact Or.inr rfl
-            | (exfalso; simp_all)
-          · left; dsimp only; rw [upd_other _ _ _ _ e]; exact hh))
+  cases a with
+  | msgInc i k => simp [liftable] at hl
+  | msgDone i k => simp [liftable] at hl
+  | report i =>
+    simp only [step] at h; split at h
+    · injection h with h; subst h
+      refine ⟨fun hh => (upd_ne_running (by simp) hh).1, fun hh => ?_⟩
+      by_cases e : x = i
+      · subst e; exact Or.inr rfl
+      · left; show upd p.pc i .reported x = .running; rw [upd_other _ _ _ _ e]; exact hh
+    · simp at h
+  | latch =>
+    simp only [step] at h; split at h
+    · injection h with h; subst h; exact ⟨id, Or.inl⟩
+    · simp at h
+  | closeNext i =>
+    simp only [step] at h; split at h
+    · injection h with h; subst h; exact ⟨id, Or.inl⟩
+    · simp at h
+  | srDec i =>
+    simp only [step] at h; split at h
+    · rename_i hg; injection h with h; subst h
+      have := running_upd p.pc i x .waiting (by simp) (by rw [hg.2]; simp)
+      exact ⟨this.1, fun hh => Or.inl (this.2 hh)⟩
+    · simp at h
+  | waitDone i =>
+    simp only [step] at h; split at h
+    · rename_i hg; injection h with h; subst h
+      have := running_upd p.pc i x .passed (by simp) (by rw [hg.2.1]; simp)
+      exact ⟨this.1, fun hh => Or.inl (this.2 hh)⟩
+    · simp at h
+  | beginCleanup i =>
+    simp only [step] at h; split at h
+    · rename_i hg; injection h with h; subst h
+      have := running_upd p.pc i x .cleaning (by simp) (by rw [hg.2.1]; simp)
+      exact ⟨this.1, fun hh => Or.inl (this.2 hh)⟩
+    · simp at h
+  | sleepDone i =>
+    simp only [step] at h; split at h
+    · rename_i hg; injection h with h; subst h
+      have := running_upd p.pc i x .cleaning (by simp) (by rw [hg.2.1]; simp)
+      exact ⟨this.1, fun hh => Or.inl (this.2 hh)⟩
+    · simp at h
+  | wake i =>
+    simp only [step] at h; split at h
+    · rename_i hg; injection h with h; subst h
+      have := running_upd p.pc i x .done (by simp) (by rw [hg.2.1]; simp)
+      exact ⟨this.1, fun hh => Or.inl (this.2 hh)⟩
+    · simp at h
+  | exit i =>
+    simp only [step] at h; split at h
+    · rename_i hg; injection h with h; subst h
+      have := running_upd p.pc i x .exited (by simp) (by rw [hg.2.1]; simp)
+      exact ⟨this.1, fun hh => Or.inl (this.2 hh)⟩
+    · simp at h
 
 theorem tokCount_pos {ts : List Task} {T : Task} {m : Msg} (h : T ∈ ts) (hm : cycTok T = some m) : 0 < tokCount ts m := by
   have := tokCount_erase h m
@@ -204,5 +252,321 @@ theorem zero_of_teardown {c : Cfg} {s : DSt} (h : DInv c s) (i : Nat) (hi : i < 
     · exact h.pinv.beyond i hi (by have := h.pinv.closedPos i hi hc; omega)
     · exact hq
   exact h.pinv.latchQ (Or.inr (by rw [← h.pinv.zeroQ]; exact hq))
+
+/-! ## preservation, action by action -/
+
+theorem ex_cons {ts : List Task} {X : Task} {Q : Task → Prop} (h : ∃ T, T ∈ ts ∧ Q T) : ∃ T, T ∈ X :: ts ∧ Q T := by
+  obtain ⟨T, hT, hQ⟩ := h; exact ⟨T, List.mem_cons_of_mem _ hT, hQ⟩
+
+theorem inv_stdRecv {c : Cfg} {s : DSt} (h : DInv c s) (i : Nat) (b : List Val) (rest : List (List Val))
+    (htodo : s.stdTodo i = b :: rest) (hi : i < c.topo.n) (hpc : s.p.pc i = .running) :
+    DInv c { s with stdTodo := upd s.stdTodo i rest, tasks := ⟨i, none, [], b, [], []⟩ :: s.tasks } := by
+  refine { pinv := h.pinv, nc := h.nc, wfOwner := ?_, wfSrc := ?_, wfPend := ?_, tok := ?_, stdRun := ?_,
+           todoRun := ?_, todoSub := ?_, sOut := h.sOut, sRes := ?_, sBuf := ?_, sPend := ?_, sRaw := ?_, sExt := h.sExt,
+           c1 := ?_, c2 := ?_, c3 := ?_, c4 := ?_ }
+  · intro T hT; simp only [List.mem_cons] at hT
+    rcases hT with rfl | hT
+    · exact hi
+    · exact h.wfOwner T hT
+  · intro T hT j k hs; simp only [List.mem_cons] at hT
+    rcases hT with rfl | hT
+    · simp at hs
+    · exact h.wfSrc T hT j k hs
+  · intro T hT k vs hp; simp only [List.mem_cons] at hT
+    rcases hT with rfl | hT
+    · simp at hp
+    · exact h.wfPend T hT k vs hp
+  · intro m; dsimp only; rw [tokCount_cons]; simp [cycTok, h.tok m]
+  · intro T hT hs; simp only [List.mem_cons] at hT
+    rcases hT with rfl | hT
+    · exact hpc
+    · exact h.stdRun T hT hs
+  · intro x hx; dsimp only
+    by_cases e : x = i
+    · subst e; exact absurd hpc hx
+    · rw [upd_other _ _ _ _ e]; exact h.todoRun x hx
+  · intro x b' hb'; dsimp only at hb'
+    by_cases e : x = i
+    · subst e; simp at hb'; exact h.todoSub x b' (by rw [htodo]; simp [hb'])
+    · rw [upd_other _ _ _ _ e] at hb'; exact h.todoSub x b' hb'
+  · intro T hT r hr; simp only [List.mem_cons] at hT
+    rcases hT with rfl | hT
+    · exact Derivable.base i b r hi (h.todoSub i b (by rw [htodo]; simp)) hr
+    · exact h.sRes T hT r hr
+  · intro T hT r hr; simp only [List.mem_cons] at hT
+    rcases hT with rfl | hT
+    · simp at hr
+    · exact h.sBuf T hT r hr
+  · intro T hT e he r hr; simp only [List.mem_cons] at hT
+    rcases hT with rfl | hT
+    · simp at he
+    · exact h.sPend T hT e he r hr
+  · intro T hT j k hs v hv; simp only [List.mem_cons] at hT
+    rcases hT with rfl | hT
+    · simp at hs
+    · exact h.sRaw T hT j k hs v hv
+  · intro x hx b' hb' r hr
+    rcases h.c1 x hx b' hb' r hr with h1 | h1 | h1
+    · by_cases e : x = i
+      · subst e
+        rw [htodo] at h1; simp only [List.mem_cons] at h1
+        rcases h1 with rfl | h1
+        · exact Or.inr (Or.inl ⟨_, List.mem_cons_self, rfl, hr⟩)
+        · left; dsimp only; simp [h1]
+      · left; dsimp only; rw [upd_other _ _ _ _ e]; exact h1
+    · exact Or.inr (Or.inl (ex_cons h1))
+    · exact Or.inr (Or.inr h1)
+  · intro j k hj hk v hv
+    rcases h.c2 j k hj hk v hv with h1 | h1 | h1
+    · exact Or.inl (ex_cons h1)
+    · exact Or.inr (Or.inl (ex_cons h1))
+    · exact Or.inr (Or.inr h1)
+  · intro j k x hx v hv r hr
+    rcases h.c3 j k x hx v hv r hr with h1 | h1
+    · exact Or.inl (ex_cons h1)
+    · exact Or.inr h1
+  · intro j v hv
+    rcases h.c4 j v hv with h1 | h1
+    · exact Or.inl (ex_cons h1)
+    · exact Or.inr h1
+
+theorem tok_replace {msgs : List Msg} {ts : List Task} {T : Task} (h : ∀ m, msgs.count m = tokCount ts m) (hT : T ∈ ts)
+    (T' : Task) (hs : cycTok T' = cycTok T) : ∀ m, msgs.count m = tokCount (replace ts T T') m := by
+  intro m; rw [tokCount_replace hT hs]; exact h m
+
+theorem inv_dedup_seen {c : Cfg} {s : DSt} (h : DInv c s) (T : Task) (hT : T ∈ s.tasks) (j k : Nat) (v : Val) (rest : List Val)
+    (hsrc : T.src = some (j, k)) (hraw : T.rawIn = v :: rest) (hseen : v ∈ s.seen j k) :
+    DInv c { s with tasks := replace s.tasks T { T with rawIn := rest } } := by
+  refine { pinv := h.pinv, nc := h.nc, wfOwner := ?_, wfSrc := ?_, wfPend := ?_, tok := ?_, stdRun := ?_,
+           todoRun := h.todoRun, todoSub := h.todoSub, sOut := h.sOut, sRes := ?_, sBuf := ?_, sPend := ?_, sRaw := ?_,
+           sExt := h.sExt, c1 := ?_, c2 := ?_, c3 := ?_, c4 := ?_ }
+  · exact forall_replace h.wfOwner (h.wfOwner T hT)
+  · exact forall_replace h.wfSrc (h.wfSrc T hT)
+  · exact forall_replace h.wfPend (h.wfPend T hT)
+  · exact tok_replace h.tok hT _ rfl
+  · exact forall_replace h.stdRun (h.stdRun T hT)
+  · exact forall_replace h.sRes (h.sRes T hT)
+  · exact forall_replace h.sBuf (h.sBuf T hT)
+  · exact forall_replace h.sPend (h.sPend T hT)
+  · refine forall_replace h.sRaw ?_
+    intro j' k' hs v' hv'
+    exact h.sRaw T hT j' k' hs v' (by rw [hraw]; exact List.mem_cons_of_mem _ hv')
+  · intro x hx b hb r hr
+    rcases h.c1 x hx b hb r hr with h1 | h1 | h1
+    · exact Or.inl h1
+    · exact Or.inr (Or.inl (exists_replace_mono h1 (fun q => q)))
+    · exact Or.inr (Or.inr h1)
+  · intro j' k' hj hk v' hv'
+    rcases h.c2 j' k' hj hk v' hv' with h1 | h1 | h1
+    · exact Or.inl (exists_replace_mono h1 (fun q => q))
+    · rcases exists_replace (T := T) (T' := { T with rawIn := rest }) h1 with h2 | ⟨hs, hv2⟩
+      · exact Or.inr (Or.inl h2)
+      · rw [hsrc] at hs; injection hs with hs; injection hs with e1 e2; subst e1; subst e2
+        rw [hraw] at hv2; simp only [List.mem_cons] at hv2
+        rcases hv2 with rfl | hv2
+        · exact Or.inr (Or.inr hseen)
+        · exact Or.inr (Or.inl ⟨_, mem_replace_new, hsrc, hv2⟩)
+    · exact Or.inr (Or.inr h1)
+  · intro j' k' x hx v' hv' r hr
+    rcases h.c3 j' k' x hx v' hv' r hr with h1 | h1
+    · exact Or.inl (exists_replace_mono h1 (fun q => q))
+    · exact Or.inr h1
+  · intro j' v' hv'
+    rcases h.c4 j' v' hv' with h1 | h1
+    · exact Or.inl (exists_replace_mono h1 (fun q => q))
+    · exact Or.inr h1
+
+theorem upd2_same (f : Nat → Nat → List Val) (j k : Nat) (v : List Val) : upd2 f j k v j k = v := by simp [upd2]
+theorem upd2_mono (f : Nat → Nat → List Val) (j k : Nat) (x : Val) (a b : Nat) (y : Val) (h : y ∈ f a b) :
+    y ∈ upd2 f j k (x :: f j k) a b := by
+  unfold upd2; split
+  · rename_i e; obtain ⟨rfl, rfl⟩ := e; exact List.mem_cons_of_mem _ h
+  · exact h
+theorem upd2_inv (f : Nat → Nat → List Val) (j k : Nat) (x : Val) (a b : Nat) (y : Val)
+    (h : y ∈ upd2 f j k (x :: f j k) a b) : y ∈ f a b ∨ (a = j ∧ b = k ∧ y = x) := by
+  unfold upd2 at h; split at h
+  · rename_i e; obtain ⟨rfl, rfl⟩ := e
+    simp only [List.mem_cons] at h
+    rcases h with rfl | h
+    · exact Or.inr ⟨rfl, rfl, rfl⟩
+    · exact Or.inl h
+  · exact Or.inl h
+
+theorem inv_dedup_new {c : Cfg} {s : DSt} (h : DInv c s) (T : Task) (hT : T ∈ s.tasks) (j k : Nat) (v : Val) (rest : List Val)
+    (hsrc : T.src = some (j, k)) (hraw : T.rawIn = v :: rest) :
+    DInv c { s with seen := upd2 s.seen j k (v :: s.seen j k),
+                    tasks := replace s.tasks T { T with rawIn := rest, results := T.results ++ c.f j k v } } := by
+  have hw := h.wfSrc T hT j k hsrc
+  refine { pinv := h.pinv, nc := h.nc, wfOwner := ?_, wfSrc := ?_, wfPend := ?_, tok := ?_, stdRun := ?_,
+           todoRun := h.todoRun, todoSub := h.todoSub, sOut := h.sOut, sRes := ?_, sBuf := ?_, sPend := ?_, sRaw := ?_,
+           sExt := h.sExt, c1 := ?_, c2 := ?_, c3 := ?_, c4 := ?_ }
+  · exact forall_replace h.wfOwner (h.wfOwner T hT)
+  · exact forall_replace h.wfSrc (h.wfSrc T hT)
+  · exact forall_replace h.wfPend (h.wfPend T hT)
+  · exact tok_replace h.tok hT _ rfl
+  · exact forall_replace h.stdRun (h.stdRun T hT)
+  · refine forall_replace h.sRes ?_
+    intro r hr; simp only [List.mem_append] at hr
+    rcases hr with hr | hr
+    · exact h.sRes T hT r hr
+    · exact Derivable.step j k T.owner v r hw.1 (h.sOut j v (h.sRaw T hT j k hsrc v (by rw [hraw]; simp))) hw.2 hr
+  · exact forall_replace h.sBuf (h.sBuf T hT)
+  · exact forall_replace h.sPend (h.sPend T hT)
+  · refine forall_replace h.sRaw ?_
+    intro j' k' hs v' hv'
+    exact h.sRaw T hT j' k' hs v' (by rw [hraw]; exact List.mem_cons_of_mem _ hv')
+  · intro x hx b hb r hr
+    rcases h.c1 x hx b hb r hr with h1 | h1 | h1
+    · exact Or.inl h1
+    · exact Or.inr (Or.inl (exists_replace_mono h1 (fun q => ⟨q.1, List.mem_append_left _ q.2⟩)))
+    · exact Or.inr (Or.inr h1)
+  · intro j' k' hj hk v' hv'
+    rcases h.c2 j' k' hj hk v' hv' with h1 | h1 | h1
+    · exact Or.inl (exists_replace_mono h1 (fun q => q))
+    · rcases exists_replace (T := T) (T' := { T with rawIn := rest, results := T.results ++ c.f j k v }) h1 with h2 | ⟨hs, hv2⟩
+      · exact Or.inr (Or.inl h2)
+      · rw [hsrc] at hs; injection hs with hs; injection hs with e1 e2; subst e1; subst e2
+        rw [hraw] at hv2; simp only [List.mem_cons] at hv2
+        rcases hv2 with rfl | hv2
+        · right; right; dsimp only; rw [upd2_same]; simp
+        · exact Or.inr (Or.inl ⟨_, mem_replace_new, hsrc, hv2⟩)
+    · exact Or.inr (Or.inr (upd2_mono _ _ _ _ _ _ _ h1))
+  · intro j' k' x hx v' hv' r hr
+    rcases upd2_inv _ _ _ _ _ _ _ hv' with hold | ⟨rfl, rfl, rfl⟩
+    · rcases h.c3 j' k' x hx v' hold r hr with h1 | h1
+      · exact Or.inl (exists_replace_mono h1 (fun q => ⟨q.1, List.mem_append_left _ q.2⟩))
+      · exact Or.inr h1
+    · left
+      have : x = T.owner := by rw [hw.2] at hx; injection hx with hx; exact hx.symm
+      exact ⟨_, mem_replace_new, this.symm, List.mem_append_right _ hr⟩
+  · intro j' v' hv'
+    rcases h.c4 j' v' hv' with h1 | h1
+    · exact Or.inl (exists_replace_mono h1 (fun q => q))
+    · exact Or.inr h1
+
+theorem inv_claim_dup {c : Cfg} {s : DSt} (h : DInv c s) (T : Task) (hT : T ∈ s.tasks) (r : Val) (rest : List Val)
+    (hres : T.results = r :: rest) (hdup : r ∈ s.out T.owner) :
+    DInv c { s with tasks := replace s.tasks T { T with results := rest } } := by
+  -- a pending result of `T` is either still pending or (it was `r`) already in the output buffer
+  have hP : ∀ i x, PRes s.tasks i x → PRes (replace s.tasks T { T with results := rest }) i x ∨ x ∈ s.out i := by
+    intro i x hp
+    rcases exists_replace (T := T) (T' := { T with results := rest }) hp with h2 | ⟨ho, hx⟩
+    · exact Or.inl h2
+    · rw [hres] at hx; simp only [List.mem_cons] at hx
+      rcases hx with rfl | hx
+      · right; rw [← ho]; exact hdup
+      · exact Or.inl ⟨_, mem_replace_new, ho, hx⟩
+  refine { pinv := h.pinv, nc := h.nc, wfOwner := ?_, wfSrc := ?_, wfPend := ?_, tok := ?_, stdRun := ?_,
+           todoRun := h.todoRun, todoSub := h.todoSub, sOut := h.sOut, sRes := ?_, sBuf := ?_, sPend := ?_, sRaw := ?_,
+           sExt := h.sExt, c1 := ?_, c2 := ?_, c3 := ?_, c4 := ?_ }
+  · exact forall_replace h.wfOwner (h.wfOwner T hT)
+  · exact forall_replace h.wfSrc (h.wfSrc T hT)
+  · exact forall_replace h.wfPend (h.wfPend T hT)
+  · exact tok_replace h.tok hT _ rfl
+  · exact forall_replace h.stdRun (h.stdRun T hT)
+  · refine forall_replace h.sRes ?_
+    intro x hx; exact h.sRes T hT x (by rw [hres]; exact List.mem_cons_of_mem _ hx)
+  · exact forall_replace h.sBuf (h.sBuf T hT)
+  · exact forall_replace h.sPend (h.sPend T hT)
+  · exact forall_replace h.sRaw (h.sRaw T hT)
+  · intro x hx b hb y hy
+    rcases h.c1 x hx b hb y hy with h1 | h1 | h1
+    · exact Or.inl h1
+    · rcases hP x y h1 with h2 | h2
+      · exact Or.inr (Or.inl h2)
+      · exact Or.inr (Or.inr h2)
+    · exact Or.inr (Or.inr h1)
+  · intro j' k' hj hk v' hv'
+    rcases h.c2 j' k' hj hk v' hv' with h1 | h1 | h1
+    · exact Or.inl (exists_replace_mono h1 (fun q => q))
+    · exact Or.inr (Or.inl (exists_replace_mono h1 (fun q => q)))
+    · exact Or.inr (Or.inr h1)
+  · intro j' k' x hx v' hv' y hy
+    rcases h.c3 j' k' x hx v' hv' y hy with h1 | h1
+    · exact hP x y h1
+    · exact Or.inr h1
+  · intro j' v' hv'
+    rcases h.c4 j' v' hv' with h1 | h1
+    · exact Or.inl (exists_replace_mono h1 (fun q => q))
+    · exact Or.inr h1
+
+theorem upd_cons_mono (out : Nat → List Val) (o : Nat) (r : Val) (i : Nat) (x : Val) (h : x ∈ out i) :
+    x ∈ upd out o (r :: out o) i := by
+  by_cases e : i = o
+  · subst e; simp [h]
+  · rw [upd_other _ _ _ _ e]; exact h
+
+theorem upd_cons_inv (out : Nat → List Val) (o : Nat) (r : Val) (i : Nat) (x : Val) (h : x ∈ upd out o (r :: out o) i) :
+    x ∈ out i ∨ (i = o ∧ x = r) := by
+  by_cases e : i = o
+  · subst e; simp at h
+    rcases h with rfl | h
+    · exact Or.inr ⟨rfl, rfl⟩
+    · exact Or.inl h
+  · rw [upd_other _ _ _ _ e] at h; exact Or.inl h
+
+theorem inv_claim_new {c : Cfg} {s : DSt} (h : DInv c s) (T : Task) (hT : T ∈ s.tasks) (r : Val) (rest : List Val)
+    (hres : T.results = r :: rest) :
+    DInv c { s with out := upd s.out T.owner (r :: s.out T.owner),
+                    tasks := replace s.tasks T { T with results := rest, buf := T.buf ++ [r] } } := by
+  have hmono := upd_cons_mono s.out T.owner r
+  have hnew : r ∈ upd s.out T.owner (r :: s.out T.owner) T.owner := by simp
+  have hP : ∀ i x, PRes s.tasks i x →
+      PRes (replace s.tasks T { T with results := rest, buf := T.buf ++ [r] }) i x ∨ x ∈ upd s.out T.owner (r :: s.out T.owner) i := by
+    intro i x hp
+    rcases exists_replace (T := T) (T' := { T with results := rest, buf := T.buf ++ [r] }) hp with h2 | ⟨ho, hx⟩
+    · exact Or.inl h2
+    · rw [hres] at hx; simp only [List.mem_cons] at hx
+      rcases hx with rfl | hx
+      · right; rw [← ho]; exact hnew
+      · exact Or.inl ⟨_, mem_replace_new, ho, hx⟩
+  refine { pinv := h.pinv, nc := h.nc, wfOwner := ?_, wfSrc := ?_, wfPend := ?_, tok := ?_, stdRun := ?_,
+           todoRun := h.todoRun, todoSub := h.todoSub, sOut := ?_, sRes := ?_, sBuf := ?_, sPend := ?_, sRaw := ?_,
+           sExt := ?_, c1 := ?_, c2 := ?_, c3 := ?_, c4 := ?_ }
+  · exact forall_replace h.wfOwner (h.wfOwner T hT)
+  · exact forall_replace h.wfSrc (h.wfSrc T hT)
+  · exact forall_replace h.wfPend (h.wfPend T hT)
+  · exact tok_replace h.tok hT _ rfl
+  · exact forall_replace h.stdRun (h.stdRun T hT)
+  · intro i x hx
+    rcases upd_cons_inv _ _ _ _ _ hx with hx | ⟨rfl, rfl⟩
+    · exact h.sOut i x hx
+    · exact h.sRes T hT _ (by rw [hres]; simp)
+  · refine forall_replace h.sRes ?_
+    intro x hx; exact h.sRes T hT x (by rw [hres]; exact List.mem_cons_of_mem _ hx)
+  · refine forall_replace (fun X hX x hx => hmono _ _ (h.sBuf X hX x hx)) ?_
+    intro x hx; simp only [List.mem_append, List.mem_singleton] at hx
+    rcases hx with hx | rfl
+    · exact hmono _ _ (h.sBuf T hT x hx)
+    · exact hnew
+  · exact forall_replace (fun X hX e he x hx => hmono _ _ (h.sPend X hX e he x hx))
+      (fun e he x hx => hmono _ _ (h.sPend T hT e he x hx))
+  · exact forall_replace (fun X hX j k hs v hv => hmono _ _ (h.sRaw X hX j k hs v hv))
+      (fun j k hs v hv => hmono _ _ (h.sRaw T hT j k hs v hv))
+  · intro i x hx; exact hmono _ _ (h.sExt i x hx)
+  · intro x hx b hb y hy
+    rcases h.c1 x hx b hb y hy with h1 | h1 | h1
+    · exact Or.inl h1
+    · rcases hP x y h1 with h2 | h2
+      · exact Or.inr (Or.inl h2)
+      · exact Or.inr (Or.inr h2)
+    · exact Or.inr (Or.inr (hmono _ _ h1))
+  · intro j' k' hj hk v' hv'
+    rcases upd_cons_inv _ _ _ _ _ hv' with hv' | ⟨rfl, rfl⟩
+    · rcases h.c2 j' k' hj hk v' hv' with h1 | h1 | h1
+      · exact Or.inl (exists_replace_mono h1 (fun q => ⟨q.1, q.2.elim (fun b => Or.inl (List.mem_append_left _ b)) Or.inr⟩))
+      · exact Or.inr (Or.inl (exists_replace_mono h1 (fun q => q)))
+      · exact Or.inr (Or.inr h1)
+    · exact Or.inl ⟨_, mem_replace_new, rfl, Or.inl (by simp)⟩
+  · intro j' k' x hx v' hv' y hy
+    rcases h.c3 j' k' x hx v' hv' y hy with h1 | h1
+    · exact hP x y h1
+    · exact Or.inr (hmono _ _ h1)
+  · intro j' v' hv'
+    rcases upd_cons_inv _ _ _ _ _ hv' with hv' | ⟨rfl, rfl⟩
+    · rcases h.c4 j' v' hv' with h1 | h1
+      · exact Or.inl (exists_replace_mono h1 (fun q => ⟨q.1, q.2.elim (fun b => Or.inl (List.mem_append_left _ b)) Or.inr⟩))
+      · exact Or.inr h1
+    · exact Or.inl ⟨_, mem_replace_new, rfl, Or.inl (by simp)⟩
 
 end OpenFGAVerif.Proofs.CycleData
